@@ -137,7 +137,8 @@ fn run_meta(prop: &str, tier: &str, rule: &str, extra_bound: usize, which: u8) -
     rep.set_rule(rule);
     rep.assume("token-level comparison of the multiset of generated impl items (impl order is not compared); in-process expansion (fallback lexer, syn 1)");
     let caps = Caps::from_env(if tier == "quick" { 150.0 } else { 1500.0 });
-    for sp in corpus::spaces(tier) {
+    // the thorough tier multiplies the corpus by the rewrite product: it uses the corpus at its middle depth
+    for sp in corpus::spaces(if tier == "quick" { "quick" } else { "mid" }) {
         let name = format!("{}/{}", if which == 12 { "shortcuts" } else { "spellings" }, sp.name);
         // the every-name spaces are large: one deviation less for the (wider) respelling product in the quick tier
         let bound = if which == 13 && tier == "quick" && sp.name.starts_with("names-") { sp.bound.map(|b| b.saturating_sub(1)) } else { sp.bound };
@@ -170,7 +171,7 @@ fn run_meta_c13(tier: &str, rule: &str) -> i32 {
 
 fn replay_meta(prop: &str, f: &Failure, which: u8) -> i32 {
     let base_space = f.space.split('/').nth(1).unwrap_or("");
-    for t in ["quick", "thorough"] {
+    for t in ["quick", "mid", "thorough"] {
         for sp in corpus::spaces(t) {
             if sp.name != base_space {
                 continue;
